@@ -220,6 +220,8 @@ def run(ctx):
         ctx.mark(('reap-after-reuse', maxchan), True)
         ctx.hist('kind=reap-after-reuse')
     for tag, fn in ([('burst-%d' % n, (lambda n=n: tg.burst_in_one_read(ctx, rng, 'C02', n))) for n in (40, 130)] +
+                    [('burst-halfclose-%d' % n, (lambda n=n: tg.burst_in_one_read(ctx, rng, 'C02', n, dst_closes=False)))
+                     for n in (3, 40)] +
                     [('failure-%s-%s' % (w_, f_), (lambda w_=w_, f_=f_: tg.failure_tears_down(ctx, rng, 'C02', w_, f_)))
                      for w_ in ('app', 'dst') for f_ in ('recv', 'send')] +
                     [('closed-app-streaming-dst', lambda: tg.closed_app_streaming_dst(ctx, rng, 'C02'))]):
